@@ -127,7 +127,11 @@ pub(super) fn execute_aggregate<'a, S: GraphSnapshot + 'a>(
                         if saw_float {
                             Value::Float(float_sum)
                         } else {
-                            Value::Int(int_sum as i64)
+                            // same overflow rule as `numeric_binop`: an integer total that does not
+                            // fit an i64 becomes a Float instead of silently wrapping around
+                            i64::try_from(int_sum)
+                                .map(Value::Int)
+                                .unwrap_or(Value::Float(float_sum))
                         }
                     }
                     AggregateFunction::SumDistinct(expr) => {
@@ -166,7 +170,11 @@ pub(super) fn execute_aggregate<'a, S: GraphSnapshot + 'a>(
                         if saw_float {
                             Value::Float(float_sum)
                         } else {
-                            Value::Int(int_sum as i64)
+                            // same overflow rule as `numeric_binop`: an integer total that does not
+                            // fit an i64 becomes a Float instead of silently wrapping around
+                            i64::try_from(int_sum)
+                                .map(Value::Int)
+                                .unwrap_or(Value::Float(float_sum))
                         }
                     }
                     AggregateFunction::Avg(expr) => {
